@@ -40,6 +40,13 @@ type shapeB struct {
 type stampT time.Time
 type levelT float64
 
+// shapeT: a row struct of strings only - an empty cell is a value, a row of empty cells a row.
+type shapeT struct {
+	Name string
+	Note string `header:"the note"`
+	Tag  string
+}
+
 type shapeN struct {
 	Name  string
 	Level levelT
@@ -229,6 +236,19 @@ func validCsv(rng *rand.Rand, shape string, header bool, n int) []byte {
 		for i := 0; i < n; i++ {
 			w.Write([]string{strPool[rng.Intn(len(strPool))], strconv.FormatFloat(rng.NormFloat64(), 'g', -1, 64), time.Date(2020, 1, 1+rng.Intn(300), 0, 0, 0, 0, time.UTC).Format("2006-01-02 15:04:05")})
 		}
+	case "T":
+		if header {
+			w.Write([]string{"Name", "the note", "Tag"})
+		}
+		for i := 0; i < n; i++ {
+			cell := func() string {
+				if rng.Intn(2) == 0 {
+					return ""
+				}
+				return strPool[rng.Intn(len(strPool))]
+			}
+			w.Write([]string{cell(), cell(), cell()})
+		}
 	case "S":
 		if header {
 			w.Write([]string{"Date", "Open", "High", "Low", "Close", "Volume"})
@@ -362,7 +382,7 @@ func (c19) Components() (real, stub []string) {
 		[]string{"simulated network: http.DefaultTransport replaced by a scripted RoundTripper (status, body, transport error, body error at an offset)", "FragReader byte source", "consumer task", "scheduler: simrt controller"}
 }
 
-var c19Readers = []string{"csv-header:A", "csv-header:B", "csv-header:S", "csv-header:N", "csv-noheader:A", "csv-noheader:B", "csv-noheader:S", "csv-noheader:N", "json", "tiingo-getsince", "tiingo-lastdate", "file"}
+var c19Readers = []string{"csv-header:A", "csv-header:B", "csv-header:S", "csv-header:N", "csv-noheader:A", "csv-noheader:B", "csv-noheader:S", "csv-noheader:N", "json", "tiingo-getsince", "tiingo-lastdate", "file", "csv-header:T", "csv-noheader:T"}
 
 func (c19) Gen(rng *rand.Rand, tier string, k int) *Case {
 	c := &Case{Family: "ext", Entity: c19Readers[rng.Intn(len(c19Readers))]}
@@ -547,6 +567,10 @@ func (c19) Run(c *Case, st *Stats) []Violation {
 				compare = csvCase[shapeN](c, true, newReader, &srcReader, add)
 			case "csv-noheader:N":
 				compare = csvCase[shapeN](c, false, newReader, &srcReader, add)
+			case "csv-header:T":
+				compare = csvCase[shapeT](c, true, newReader, &srcReader, add)
+			case "csv-noheader:T":
+				compare = csvCase[shapeT](c, false, newReader, &srcReader, add)
 			case "csv-noheader:A":
 				compare = csvCase[shapeA](c, false, newReader, &srcReader, add)
 			case "csv-noheader:B":
